@@ -2,6 +2,7 @@ use std::io::{self, Read};
 
 use noodles_vcf::{self as vcf, variant::RecordBuf};
 
+use super::record::read_site_length;
 use crate::io::reader::num::read_u32_le;
 
 pub(super) fn read_record_buf<R>(
@@ -15,10 +16,10 @@ where
 {
     use crate::record::codec::decoder::{read_samples, read_site};
 
-    let l_shared = match read_u32_le(reader) {
-        Ok(n) => usize::try_from(n).map_err(|e| io::Error::new(io::ErrorKind::InvalidData, e))?,
-        Err(ref e) if e.kind() == io::ErrorKind::UnexpectedEof => return Ok(0),
-        Err(e) => return Err(e),
+    // EOF is only clean at a record boundary: a partially read length is an unexpected EOF.
+    let l_shared = match read_site_length(reader)? {
+        0 => return Ok(0),
+        n => n,
     };
 
     let l_indiv = read_u32_le(reader).and_then(|n| {
